@@ -38,6 +38,8 @@ def run(repo, rep):
     _log_rule(repo, rep, 'C13', 'C13.Z2')
     from ..api_pitfalls import truth_rule as _truth_rule
     _truth_rule(repo, rep, 'C13', 'C13.Z4')
+    from ..api_pitfalls import attribute_rule as _attribute_rule
+    _attribute_rule(repo, rep, 'C13', 'C13.Z5')
     model = FsmModel(repo)
     pm = ProviderModel(repo, model)
     rep.trust('PS3.8 Table 9-10 rows Evt17/Evt18 as transcribed; CPython semantics of threading.Event, select, socket')
